@@ -225,6 +225,45 @@ Definition lvc_send_utf8 (l : lvc) (text : list Z) : option (list Z) :=
   Some (cut_hdr (neg32 4) ++ be32 (c18_Notify + c18_Text) ++
         cut_hdr (neg32 (4 + Z.of_nat (length z))) ++ be32 (c18_Provide + c18_Text) ++ z).
 
+(* WriteToRFBServer (libvncclient/sockets.c): while (i < n) { j = write(sock, buf+i, n-i); ... i += j }.
+   [sched] is what the kernel does on the successive write() calls: k > 0 = takes min(k, rest) bytes,
+   0 = EAGAIN (the loop waits in select() until the socket is writable and continues with j = 0),
+   k < 0 = any other error (FALSE).  An exhausted schedule = the kernel takes whatever is offered.
+   Result: the bytes handed to the kernel in order, the unused schedule, success. *)
+Fixpoint lvc_write (sched : list Z) (buf acc : list Z) : list Z * list Z * bool :=
+  match buf with
+  | [] => (acc, sched, true)
+  | _ :: _ =>
+    match sched with
+    | [] => (acc ++ buf, [], true)
+    | k :: r =>
+        if k =? 0 then lvc_write r buf acc
+        else if k <? 0 then (acc, r, false)
+        else let n := Nat.min (Z.to_nat k) (length buf) in
+             lvc_write r (skipn n buf) (acc ++ firstn n buf)
+    end
+  end.
+
+(* WriteToRFBServer(a) && WriteToRFBServer(b) && ... *)
+Fixpoint lvc_write_all (sched : list Z) (parts : list (list Z)) (acc : list Z) : list Z * list Z * bool :=
+  match parts with
+  | [] => (acc, sched, true)
+  | b :: r =>
+      let '(acc1, s1, ok) := lvc_write sched b acc in
+      if ok then lvc_write_all s1 r acc1 else (acc1, s1, false)
+  end.
+
+(* the buffers SendClientCutText / SendClientCutTextUTF8 pass to WriteToRFBServer, one per call *)
+Definition lvc_send_cut_parts (text : list Z) : list (list Z) :=
+  [cut_hdr (Z.of_nat (length text)); text].
+
+Definition lvc_send_utf8_parts (l : lvc) (text : list Z) : option (list (list Z)) :=
+  if l_caps l =? 0 then None else
+  let content := be32 (Z.of_nat (length text) + 1) ++ text ++ [0] in
+  let z := zsync content in
+  Some [cut_hdr (neg32 4); be32 (c18_Notify + c18_Text);
+        cut_hdr (neg32 (4 + Z.of_nat (length z))); be32 (c18_Provide + c18_Text) ++ z].
+
 (* rfbClientProcessExtServerCutText on the payload [p] *)
 Definition lvc_ext (l : lvc) (p : list Z) : lvc * list lvc_event * bool :=
   match be32_at p 0 with
@@ -299,15 +338,26 @@ Definition cstep (s : server) (o : cop) : server * list event :=
 (* ---- a world with real LibVNCClient peers on some connections ---- *)
 Record world := mkWorld {
   w_srv : server;
-  w_lvcs : list (Z * lvc * nat)      (* connection id, client state, server messages already read *)
+  w_lvcs : list (Z * lvc * nat);     (* connection id, client state, server messages already read *)
+  w_sched : list (Z * list Z)        (* connection id, what the kernel will do on that client's next write() calls *)
 }.
+
+Fixpoint find_sched (ss : list (Z * list Z)) (id : Z) : list Z :=
+  match ss with
+  | [] => []
+  | (i, s) :: r => if i =? id then s else find_sched r id
+  end.
+
+Definition put_sched (ss : list (Z * list Z)) (id : Z) (s : list Z) : list (Z * list Z) :=
+  (id, s) :: filter (fun e => negb (fst e =? id)) ss.
 
 Inductive wop :=
 | WOp (o : cop)
 | WLvcNew (id : Z) (utf8 : bool)         (* a LibVNCClient is the peer of connection id *)
 | WLvcCut (id : Z) (text : list Z)       (* SendClientCutText *)
 | WLvcUTF8 (id : Z) (text : list Z)      (* SendClientCutTextUTF8 *)
-| WLvcPump (id : Z).                     (* HandleRFBServerMessage while data is available *)
+| WLvcPump (id : Z)                      (* HandleRFBServerMessage while data is available *)
+| WLvcSched (id : Z) (sched : list Z).   (* what the kernel does on this client's next write() calls *)
 
 Inductive wevent :=
 | WSrv (e : event)
@@ -327,23 +377,31 @@ Fixpoint put_lvc (ls : list (Z * lvc * nat)) (id : Z) (l : lvc) (n : nat) : list
   | (i, l0, n0) :: r => if i =? id then (i, l, n) :: r else (i, l0, n0) :: put_lvc r id l n
   end.
 
+(* a Send* call of a LibVNCClient: its buffers go through WriteToRFBServer under the pending
+   schedule; whatever reached the kernel is on the wire, even when the call fails half-way *)
+Definition lvc_emit (w : world) (id : Z) (parts : list (list Z)) : world * list wevent :=
+  let '(bytes, rest, ok) := lvc_write_all (find_sched (w_sched w) id) parts [] in
+  let '(s', ev) := match bytes with
+                   | [] => (w_srv w, [])
+                   | _ :: _ => cstep (w_srv w) (CIn (OSend id [bytes]))
+                   end in
+  (mkWorld s' (w_lvcs w) (put_sched (w_sched w) id rest),
+   map WSrv ev ++ (if ok then [] else [WLvcSendFail id])).
+
 Definition wstep (w : world) (o : wop) : world * list wevent :=
   match o with
   | WOp o' =>
-      let '(s', ev) := cstep (w_srv w) o' in (mkWorld s' (w_lvcs w), map WSrv ev)
-  | WLvcNew id utf8 => (mkWorld (w_srv w) ((id, mkLvc 0 utf8, 0%nat) :: w_lvcs w), [])
-  | WLvcCut id text =>
-      let '(s', ev) := cstep (w_srv w) (CIn (OSend id [lvc_send_cut text])) in
-      (mkWorld s' (w_lvcs w), map WSrv ev)
+      let '(s', ev) := cstep (w_srv w) o' in (mkWorld s' (w_lvcs w) (w_sched w), map WSrv ev)
+  | WLvcNew id utf8 => (mkWorld (w_srv w) ((id, mkLvc 0 utf8, 0%nat) :: w_lvcs w) (w_sched w), [])
+  | WLvcSched id sched => (mkWorld (w_srv w) (w_lvcs w) (put_sched (w_sched w) id sched), [])
+  | WLvcCut id text => lvc_emit w id (lvc_send_cut_parts text)
   | WLvcUTF8 id text =>
       match find_lvc (w_lvcs w) id with
       | None => (w, [])
       | Some (l, _) =>
-          match lvc_send_utf8 l text with
+          match lvc_send_utf8_parts l text with
           | None => (w, [WLvcSendFail id])
-          | Some b =>
-              let '(s', ev) := cstep (w_srv w) (CIn (OSend id [b])) in
-              (mkWorld s' (w_lvcs w), map WSrv ev)
+          | Some parts => lvc_emit w id parts
           end
       end
   | WLvcPump id =>
@@ -354,7 +412,7 @@ Definition wstep (w : world) (o : wop) : world * list wevent :=
           (* a client that gives up closes its socket: the server will see end-of-file *)
           let s' := if ok then w_srv w
                     else fst (step (ext_cut_real (fix_short (s_cfg (w_srv w)))) (w_srv w) (OEof id)) in
-          (mkWorld s' (put_lvc (w_lvcs w) id l' (length outs)),
+          (mkWorld s' (put_lvc (w_lvcs w) id l' (length outs)) (w_sched w),
            map (WLvc id) evs ++ (if ok then [] else [WLvcGaveUp id]))
       | _, _ => (w, [])
       end
@@ -365,6 +423,6 @@ Definition unlock_all (w : world) : world :=
   mkWorld (mkSrv (s_cfg (w_srv w))
                  (map (fun c => set_clip c (set_locked (c_clip c) false)) (s_clients (w_srv w)))
                  (s_owner (w_srv w)) (s_now (w_srv w)))
-          (w_lvcs w).
+          (w_lvcs w) (w_sched w).
 
 End Clip.
